@@ -125,24 +125,6 @@ class FromBaseContract(Contract):
             # a nested node registers the lock of its (None) lock id in its class's table
             return [("g", "View"), ("g", "Cell"), ("g", "Alloc")] + [("g", n) for n in c.pre.g if n.startswith("LockDom:")]
 
-        def locks_monotone(c):
-            """Inv.locks: lock tables only grow (pointwise, at the lock ids of the known nodes / a Skolem id)."""
-            cl = []
-            for n in c.pre.g:
-                if not n.startswith("LockDom:"):
-                    continue
-                keys = []
-                if c.mode == "assume":
-                    for a, rec in c.pre.objs.items():
-                        if rec.tag.startswith("node") and "_filename" in rec.fields:
-                            keys.append(to_val(rec.fields["_filename"]))
-                    keys.extend(c.pre.ghost.get("skolem_res", []))
-                else:
-                    keys = [c.pre.ghost["skolem_res"][0]]
-                for k in keys:
-                    cl.append(z3.Implies(z3.Select(c.pre.g[n], k), z3.Select(c.post.g[n], k)))
-            return smt.and_(cl)
-
         def post_node(c):
             d = to_val(c.b["data"])
             r = to_val(c.result)
@@ -256,6 +238,26 @@ def other_resources_unchanged(c, rid):
     return z3.Implies(z3.And(p0 != rid, existed(p0)), same(p0))
 
 
+def locks_monotone(c):
+    """Inv.locks: lock tables only grow (pointwise, at the lock ids of the known nodes / a Skolem id)."""
+    cl = []
+    for n in c.pre.g:
+        if not n.startswith("LockDom:"):
+            continue
+        keys = []
+        if c.mode == "assume":
+            for a, rec in c.pre.objs.items():
+                if rec.tag.startswith("node") and "_filename" in rec.fields:
+                    keys.append(to_val(rec.fields["_filename"]))
+            keys.extend(c.pre.ghost.get("skolem_res", []))
+        else:
+            keys = [c.pre.ghost["skolem_res"][0]]
+        for k in keys:
+            cl.append(z3.Implies(z3.Select(c.pre.g[n], k), z3.Select(c.post.g[n], k)))
+    return smt.and_(cl)
+
+
+
 class FromBaseMapContract(Contract):
     """Lifted form of _from_base for `[self._from_base(data=v, parent=self) for v in xs]`:
     a fresh list value whose element-wise view is plain(xs) (per-element contract: FromBaseContract)."""
@@ -271,6 +273,7 @@ class FromBaseMapContract(Contract):
             r = to_val(c.result)
             return [
                 ("lifted:not-a-node", z3.Not(smt.is_VRef(r))),
+                ("C10:lock-tables-only-grow", locks_monotone(c)),
                 ("frame:old-objects", below_alloc_unchanged(c, ("View", "Cell"))),
                 ("alloc", c.post.g["Alloc"] >= c.pre.g["Alloc"]),
             ]
